@@ -37,6 +37,16 @@ func c06Jobs(tier string) []Job {
 	for which := 0; which <= 3; which++ {
 		js = append(js, Job{Dir: "", Harness: "VH_C06_fallback", Params: map[string]int{"which": which}, Weight: 20})
 	}
+	// fallback to UCS-2 for texts around the UCS-2 single/multi threshold (70 characters)
+	fl := []int{69, 70, 80}
+	if tier == "thorough" {
+		fl = []int{1, 68, 69, 70, 71, 76, 80, 133, 134}
+	}
+	for req := 0; req <= 4; req++ {
+		for _, t := range fl {
+			js = append(js, Job{Dir: "", Harness: "VH_C06_fallback_long", Params: map[string]int{"req": req, "T": t}, Weight: 30 + t})
+		}
+	}
 	return js
 }
 
@@ -72,7 +82,7 @@ func init() {
 			"packed GSM-7": "every valid septet stream of length T (content symbolic; escape pairs anywhere within 3 septets before / 1 after each multiple of 153, in the first 2 and last 3 septets, and anywhere for T <= 8), T in {0,1,7,8,159,160,161,305,306,307} (thorough adds up to 613 = 4 parts); oracle: reference segmentation + reference packer",
 			"ASCII":        "every ASCII text of T octets through the CMPP and SMPP entry points, T in {0,1,140,141,268,269} (thorough up to 537)",
 			"UCS-2":        "every text of T ASCII-range characters, T in {1,70,71,134,135} (thorough up to 202), both entry points",
-			"fallback":     "texts 'a'+r for every BMP scalar r >= 0x80 (symbolic); every invalid coding number (symbolic int)",
+			"fallback":     "texts 'a'+r for every BMP scalar r >= 0x80 (symbolic); every invalid coding number (symbolic int); T concrete ASCII letters followed by one symbolic CJK character (T in {69,70,80}, thorough up to 134) requested as SMPP GSM-7 unpacked/packed, ASCII, Latin-1 and CMPP ASCII",
 		},
 		Outside: []string{"GB18030 texts (table-driven codec, see DESIGN.md section 9)", "Latin-1 and unpacked GSM-7 long texts end-to-end (their splitter is the generic one checked under C07 with arbitrary streams)", "texts beyond the listed lengths"},
 	})
